@@ -133,19 +133,26 @@ def run(ctx):
     def player_arm(bi):
         return any(c['kind'] == 'variant' and c['variants'] == ['Player'] for c in f.conds(bi))
 
+    def is_len(x):
+        x = strip_refs(x)
+        return q.is_call(x, 'len') or x[0] == 'len'
+
     def multi_arm(bi, g=f):
         if not player_arm(bi):
             return False
         for c in g.conds(bi):
-            if c['kind'] == 'value' and 'else' in c['values'] and q.is_call(strip_refs(c['a']), 'len'):
+            if c['kind'] == 'value' and 'else' in c['values'] and is_len(c['a']):
                 return True
-        return False
+        # the same exclusion of 0 and 1 actions written as guard clauses / comparisons
+        return any(v >= 2 for v in q.len_lower_bound(g, bi).values())
 
     def single_arm(bi):
         if not player_arm(bi):
             return False
         for c in f.conds(bi):
-            if c['kind'] == 'value' and c['values'] == ['1'] and q.is_call(strip_refs(c['a']), 'len'):
+            if c['kind'] == 'value' and c['values'] == ['1'] and is_len(c['a']):
+                return True
+            if c['kind'] == 'Eq' and c.get('truth') is True and is_len(c['a']) and c.get('b') is not None and is_const(c['b'], 1):
                 return True
         return False
 
@@ -221,7 +228,9 @@ def run(ctx):
         cs = f.conds(bi)
         cross = [c for c in cs if c['kind'] in ('Is:contains_key', 'Is:contains') and c['truth'] is False and 'player_infosets' in facts.show(c['a'])]
         ent = q.find_sub(e[2][0], lambda s: q.is_call(s, 'entry'))
-        same_name = bool(cross) and ent is not None and norm(cross[-1]['b']) == norm(ent[2][1])
+        # the name recorded: the key of the entry, or the key argument of a plain `map.insert(name, action)`
+        key = ent[2][1] if ent is not None else (e[2][1] if len(e[2]) == 3 else None)
+        same_name = bool(cross) and key is not None and norm(cross[-1]['b']) == norm(key)
         ctx.verdict(bool(cross) and same_name, rule, '%s:cross-table:%s' % (rule, top), 'a single-action infoset is recorded only if its name is absent from the same player\'s multi-action table', f.where(bi),
                     'absent-from-multi-table test on the same name dominates: %s' % (bool(cross) and same_name), breaks='one infoset name with one action here and several there')
     # re-met single-action infoset: same action
@@ -241,7 +250,11 @@ def run(ctx):
     for g, sites in [(f, errs.get('ActionsNotEqual', []))]:
         for gg, bi in sites:
             cs = gg.conds(bi)
-            if gg is f and single_arm(bi) and any(c['kind'] == 'variant' and c['variants'] == ['Occupied'] for c in cs) and any((c['kind'] == 'Ne' and c['truth'] is True) or (c['kind'] == 'Eq' and c['truth'] is False) for c in cs):
+            # an entry already there (`Occupied` of the entry API, or `Some` of a get on the single-action table) whose
+            # stored action differs from this node's
+            present = any(c['kind'] == 'variant' and (c['variants'] == ['Occupied'] or (c['variants'] == ['Some'] and q.is_call(strip_refs(c['a']), 'get') and 'HashMap' in strip_refs(c['a'])[1])) for c in cs)
+            differs = any(((c['kind'] == 'Ne' and c['truth'] is True) or (c['kind'] == 'Eq' and c['truth'] is False)) and not (strip_refs(c['a'])[0] == 'call' and short(strip_refs(c['a'])[1]) == 'len') for c in cs)
+            if gg is f and single_arm(bi) and present and differs:
                 occ_ne = True
     ctx.verdict(occ_ne, rule, '%s:same-action:%s' % (rule, top), 'a re-met single-action infoset with a different action is rejected (ActionsNotEqual on the unequal edge)', '', 'found: %s' % occ_ne)
 
